@@ -54,6 +54,7 @@ pub fn drain_sync<R: Read>(r: &mut R, sizes: &[u32], cap: usize) -> Drained {
     let mut d = Drained { bytes: Vec::new(), err: None, reads: 0, eintr_retried: 0, eof_confirmed: 0, eof_violated: false };
     let mut i = 0usize;
     let mut data_reads = 0u64;
+    let vectored = QUIRK.with(|q| q.get()) == QUIRK_VECTORED;
     loop {
         // Interrupted results are legal no-progress steps (bounded by the source's trace, at most a few thousand);
         // a stream is judged runaway only when it keeps producing data or more EINTRs than any trace can hold
@@ -65,7 +66,8 @@ pub fn drain_sync<R: Read>(r: &mut R, sizes: &[u32], cap: usize) -> Drained {
         i += 1;
         let mut buf = vec![0u8; sz];
         d.reads += 1;
-        match r.read(&mut buf) {
+        let res = if vectored { read_vectored_sync(r, &mut buf, i) } else { r.read(&mut buf) };
+        match res {
             Ok(0) => break,
             Ok(n) => {
                 data_reads += 1;
@@ -102,12 +104,14 @@ pub fn drain_sync<R: Read>(r: &mut R, sizes: &[u32], cap: usize) -> Drained {
 pub async fn drain_async<R: AsyncRead + Unpin>(r: &mut R, sizes: &[u32], cap: usize) -> Drained {
     let mut d = Drained { bytes: Vec::new(), err: None, reads: 0, eintr_retried: 0, eof_confirmed: 0, eof_violated: false };
     let mut i = 0usize;
+    let vectored = QUIRK.with(|q| q.get()) == QUIRK_VECTORED;
     loop {
         let sz = if sizes.is_empty() { 8192 } else { sizes[i % sizes.len()].max(1) as usize };
         i += 1;
         let mut buf = vec![0u8; sz];
         d.reads += 1;
-        match r.read(&mut buf).await {
+        let res = if vectored { read_vectored_async(r, &mut buf, i).await } else { r.read(&mut buf).await };
+        match res {
             Ok(0) => break,
             Ok(n) => d.bytes.extend_from_slice(&buf[..n]),
             Err(e) => {
@@ -133,10 +137,89 @@ pub async fn drain_async<R: AsyncRead + Unpin>(r: &mut R, sizes: &[u32], cap: us
     d
 }
 
+/// consumer quirks (how the caller reads the payload), set by the property around run_parser_opt
+pub const QUIRK_NONE: u8 = 0;
+/// every read is a vectored read into two or three buffers (first one short)
+pub const QUIRK_VECTORED: u8 = 1;
+/// cross-payload runs: the first reads go through one interface of the IppPayload, the rest through the other
+pub const QUIRK_MIXED: u8 = 2;
+/// blocking reads of an async-parsed payload: after the first read the response moves to another OS thread
+pub const QUIRK_HANDOVER: u8 = 3;
+
+thread_local! {
+    pub static QUIRK: std::cell::Cell<u8> = const { std::cell::Cell::new(0) };
+}
+
+/// split a buffer of `sz` bytes into the slices of one vectored read: a short first buffer, then the rest in one or two
+pub fn vec_split(sz: usize, i: usize) -> Vec<usize> {
+    if sz < 2 {
+        return vec![sz];
+    }
+    let first = [1usize, 2, 7, sz / 2][i % 4].clamp(1, sz - 1);
+    let rest = sz - first;
+    if rest >= 2 && i % 3 == 0 {
+        vec![first, rest / 2, rest - rest / 2]
+    } else {
+        vec![first, rest]
+    }
+}
+
+pub fn read_vectored_sync<R: Read>(r: &mut R, buf: &mut [u8], i: usize) -> std::io::Result<usize> {
+    let parts = vec_split(buf.len(), i);
+    let mut slices: Vec<std::io::IoSliceMut<'_>> = Vec::new();
+    let mut rest = buf;
+    for p in parts {
+        let (a, b) = rest.split_at_mut(p);
+        slices.push(std::io::IoSliceMut::new(a));
+        rest = b;
+    }
+    r.read_vectored(&mut slices)
+}
+
+pub async fn read_vectored_async<R: AsyncRead + Unpin>(r: &mut R, buf: &mut [u8], i: usize) -> std::io::Result<usize> {
+    let parts = vec_split(buf.len(), i);
+    let mut slices: Vec<std::io::IoSliceMut<'_>> = Vec::new();
+    let mut rest = buf;
+    for p in parts {
+        let (a, b) = rest.split_at_mut(p);
+        slices.push(std::io::IoSliceMut::new(a));
+        rest = b;
+    }
+    r.read_vectored(&mut slices).await
+}
+
 thread_local! {
     /// read the payload of parse() through the *other* interface (blocking parse -> AsyncRead via AllowStdIo on the
     /// scripted executor; async parse -> blocking Read via block_on). Set by the caller around run_parser_opt.
     pub static CROSS_PAYLOAD: std::cell::Cell<bool> = const { std::cell::Cell::new(false) };
+}
+
+/// up to two small blocking reads (Interrupted retried); returns the bytes and whether end-of-stream or an error was met
+fn few_blocking_reads<R: Read>(r: &mut R, sizes: &[u32]) -> (Vec<u8>, bool, Option<ErrKind>) {
+    let mut got = Vec::new();
+    let mut eintr = 0u32;
+    let mut k = 0usize;
+    while k < 2 {
+        let sz = if sizes.is_empty() { 5 } else { (sizes[k % sizes.len()].max(1) as usize).min(4095) };
+        let mut buf = vec![0u8; sz];
+        match r.read(&mut buf) {
+            Ok(0) => return (got, true, None),
+            Ok(n) => {
+                got.extend_from_slice(&buf[..n]);
+                k += 1;
+            }
+            Err(e) if e.kind() == std::io::ErrorKind::Interrupted && eintr < 1_000_000 => eintr += 1,
+            Err(e) => return (got, true, Some(ErrKind::from_io(e.kind()))),
+        }
+    }
+    (got, false, None)
+}
+
+fn prepend(first: Vec<u8>, mut d: Drained) -> Drained {
+    let mut all = first;
+    all.extend_from_slice(&d.bytes);
+    d.bytes = all;
+    d
 }
 
 pub struct ParseRun {
@@ -217,9 +300,16 @@ pub fn run_parser_opt(
                         // blocking-parsed payload consumed through the AsyncRead side
                         let core2 = core.clone();
                         let sizes2 = sizes.to_vec();
+                        let mixed = QUIRK.with(|q| q.get()) == QUIRK_MIXED;
                         match guarded(move || {
+                            let (first, done, err) = if mixed { few_blocking_reads(resp.payload_mut(), &sizes2) } else { (Vec::new(), false, None) };
+                            if done {
+                                let d = Drained { bytes: first, err, reads: 2, eintr_retried: 0, eof_confirmed: 3, eof_violated: false };
+                                return (Ok(d), ExecStats::default());
+                            }
                             let fut = async move { drain_async(resp.payload_mut(), &sizes2, cap).await };
-                            run_scripted(&core2, fut, max_polls.max(64) + 4 * cap as u64)
+                            let (r, st) = run_scripted(&core2, fut, max_polls.max(64) + 4 * cap as u64);
+                            (r.map(|d| prepend(first, d)), st)
                         }) {
                             Ok((Ok(d), st)) => {
                                 out.exec = st;
@@ -312,9 +402,52 @@ pub fn run_parser_opt(
                     out.payload = d;
                     // async-parsed payload consumed through the blocking Read side (real block_on bridge)
                     if let Some(mut resp) = kept.borrow_mut().take() {
-                        match guarded(|| drain_sync(resp.payload_mut(), &sizes_out, cap)) {
-                            Ok(d) => out.payload = Some(d),
-                            Err(p) => out.outcome = Outcome::Panic(format!("payload read: {p}")),
+                        let quirk = QUIRK.with(|q| q.get());
+                        if quirk == QUIRK_MIXED {
+                            // first reads through the blocking side, the rest of the same payload through AsyncRead
+                            let core3 = core.clone();
+                            let sizes3 = sizes_out.clone();
+                            match guarded(move || {
+                                let (first, done, err) = few_blocking_reads(resp.payload_mut(), &sizes3);
+                                if done {
+                                    let d = Drained { bytes: first, err, reads: 2, eintr_retried: 0, eof_confirmed: 3, eof_violated: false };
+                                    return (Ok(d), ExecStats::default());
+                                }
+                                let fut = async move { drain_async(resp.payload_mut(), &sizes3, cap).await };
+                                let (r, st) = run_scripted(&core3, fut, max_polls.max(64) + 4 * cap as u64);
+                                (r.map(|d| prepend(first, d)), st)
+                            }) {
+                                Ok((Ok(d), _)) => out.payload = Some(d),
+                                Ok((Err(v), _)) => out.exec_violation = Some(v),
+                                Err(p) => out.outcome = Outcome::Panic(format!("payload read: {p}")),
+                            }
+                        } else if quirk == QUIRK_HANDOVER {
+                            // the first reads on this thread, then the response moves to another OS thread
+                            let sizes3 = sizes_out.clone();
+                            match guarded(move || {
+                                let (first, done, err) = few_blocking_reads(resp.payload_mut(), &sizes3);
+                                if done {
+                                    return Ok(Drained { bytes: first, err, reads: 2, eintr_retried: 0, eof_confirmed: 3, eof_violated: false });
+                                }
+                                let (tx, rx) = std::sync::mpsc::channel();
+                                std::thread::spawn(move || {
+                                    let d = drain_sync(resp.payload_mut(), &sizes3, cap);
+                                    let _ = tx.send(d);
+                                });
+                                match rx.recv_timeout(std::time::Duration::from_secs(30)) {
+                                    Ok(d) => Ok(prepend(first, d)),
+                                    Err(_) => Err("blocking payload read did not return within 30 s after the response moved to another thread".to_string()),
+                                }
+                            }) {
+                                Ok(Ok(d)) => out.payload = Some(d),
+                                Ok(Err(m)) => out.outcome = Outcome::Panic(format!("payload read: {m}")),
+                                Err(p) => out.outcome = Outcome::Panic(format!("payload read: {p}")),
+                            }
+                        } else {
+                            match guarded(|| drain_sync(resp.payload_mut(), &sizes_out, cap)) {
+                                Ok(d) => out.payload = Some(d),
+                                Err(p) => out.outcome = Outcome::Panic(format!("payload read: {p}")),
+                            }
                         }
                     }
                 }
